@@ -369,7 +369,8 @@ def build_instances(tier):
 
 
 HANDSHAKES = {'quick': (('default', 'init+new@B'), ('pfs', 'init+rekey@B'), ('pfs', 'init+new@A'), ('default', 'init+ike@B+rekey@B+new@A'),
-                        ('pfs', 'init+cross@newxnew'), ('ah_tunnel', 'init+ike@A+new@A+new@B')),
+                        ('pfs', 'init+cross@newxnew'), ('ah_tunnel', 'init+ike@A+new@A+new@B'), ('prf_change', 'init+ike@B+rekey@B+new@A'),
+                        ('prf_change', 'init+ike@A+ike@B+new@B')),
               'thorough': None}
 
 
@@ -379,7 +380,7 @@ def handshake_instances(tier):
     from . import c01
     combos = HANDSHAKES[tier]
     if combos is None:
-        combos = [(su, sc) for su in ('default', 'subset', 'pfs', 'pfs384', 'ah_tunnel', 'child_dh_retry') for sc in c01.SCENARIOS
+        combos = [(su, sc) for su in ('default', 'subset', 'pfs', 'pfs384', 'ah_tunnel', 'child_dh_retry', 'prf_change') for sc in c01.SCENARIOS
                   if 'cross' not in sc or su in ('default', 'pfs', 'ah_tunnel')]
     return [Instance(f'handshake {su} {sc}', c01.h_scenario, (su, sc, True), native=common.native_of(c01.h_scenario), engine_kw={'max_ticks': 10 ** 7},
                      must_reach=[('completed', lambda o: o[0] == 'scenario' and len(o) == 2)]) for su, sc in combos]
